@@ -57,11 +57,12 @@ impl<K, V> IndexMap<K, V> {
     { unimplemented!() }
 }
 
-// ---- extracted from src/compact.rs: struct Builder ----
+// ---- extracted from src/compact.rs: struct OptBuilder ----
 #[verifier::reject_recursive_types(K)]
 #[verifier::reject_recursive_types(V)]
-pub struct Builder<K, V> {
-    pub map: IndexMap<K, (usize, V)>,
+pub struct OptBuilder<K, V> {
+    pub counter: usize,
+    pub map: IndexMap<Result<K, usize>, (usize, V)>,
 }
 
 // ---- extracted from src/compact.rs: struct VacantEntry ----
@@ -87,83 +88,90 @@ pub enum Entry<'a, K, V> {
     Occupied(OccupiedEntry<'a, K, V>),
 }
 
-// representation invariant: dense indices in insertion order
 pub open spec fn dense<K, V>(s: Seq<(K, (usize, V))>) -> bool { forall|i: int| 0 <= i < s.len() ==> (#[trigger] s[i]).1.0 == i }
-// entry() on a new key followed by insert() appends (key, (number of keys so far, value)): the
-// invariant is preserved, so the k-th distinct infoset gets index k
-pub proof fn lemma_dense_preserved<K, V>(s: Seq<(K, (usize, V))>, key: K, ind: usize, val: V)
-    requires dense(s), ind == s.len(),
-    ensures dense(s.push((key, (ind, val)))), // @ob C11.V.compact.dense_preserved
-{
-    let t = s.push((key, (ind, val)));
-    assert forall|i: int| 0 <= i < t.len() implies (#[trigger] t[i]).1.0 == i by { if i < s.len() { assert(t[i] == s[i]); } }
+// every anonymous key handed out so far is below the counter: the next anonymous key is new
+pub open spec fn errs_below<K, V>(s: Seq<(Result<K, usize>, (usize, V))>, counter: usize) -> bool {
+    forall|i: int| 0 <= i < s.len() ==> ((#[trigger] s[i]).0 matches Err(c) ==> c < counter)
 }
+pub open spec fn true_key<K>(key: Option<K>, counter: usize) -> Result<K, usize> { match key { Some(k) => Ok(k), None => Err(counter) } }
+// Option::ok_or_else with the closure `|| { let res = self.counter; self.counter += 1; res }` (its
+// contract: optbuilder_entry__fresh_key below, proved on its real text)
+#[verifier::external_body]
+pub fn __ok_or_else_fresh<K, V>(key: Option<K>, b: &mut OptBuilder<K, V>) -> (r: Result<K, usize>)
+    requires old(b).counter < usize::MAX,
+    ensures r == true_key(key, old(b).counter), final(b).map == old(b).map,
+        final(b).counter == (if key is None { (old(b).counter + 1) as usize } else { old(b).counter }),
+{ unimplemented!() }
 
-// ---- extracted from src/compact.rs: impl Builder ----
-impl<K, V> Builder<K, V> {
-pub fn new() -> (r: Self) 
-    ensures dense(r.map@), r.map@.len() == 0, // @ob C11.V.compact.new_dense
+// ---- extracted from src/compact.rs: impl OptBuilder / fn entry ----
+pub fn optbuilder_entry__fresh_key<K, V>(self_: &mut OptBuilder<K, V>) -> (out: usize)
+    requires
+        old(self_).counter < usize::MAX,
+    ensures
+        // an anonymous chance infoset gets the current counter as its key, and the counter moves on
+        out == old(self_).counter && final(self_).counter == old(self_).counter + 1 && final(self_).map == old(self_).map, // @ob C11.V.compact_opt.fresh_key
 {
-        Builder {
+            let res = self_.counter;
+            self_.counter += 1;
+            res
+        }
+
+// ---- extracted from src/compact.rs: impl OptBuilder ----
+impl<K, V> OptBuilder<K, V> {
+pub fn new() -> (r: Self) 
+    ensures dense(r.map@), r.map@.len() == 0, errs_below(r.map@, r.counter), // @ob C11.V.compact_opt.new
+{
+        OptBuilder {
+            counter: 0,
             map: IndexMap::new(),
         }
     }
-pub fn entry(&mut self, key: K) -> (r: Entry<'_, K, V>) 
+pub fn entry(&mut self, key: Option<K>) -> (r: Entry<'_, Result<K, usize>, V>) 
     requires
-        dense(old(self).map@),
+        dense(old(self).map@), errs_below(old(self).map@, old(self).counter), old(self).counter < usize::MAX,
     ensures
         match r {
-            // a key seen before: the entry carries the index it was given then (its position)
-            Entry::Occupied(e) => has_key(old(self).map@, key) && e.ent.stored().0 == key_at(old(self).map@, key) && final(self).map@ == old(self).map@, // @ob C11.V.compact.entry_index
-            // a new key: the entry carries the next index, the number of keys seen so far
-            Entry::Vacant(e) => !has_key(old(self).map@, key) && e.ind == old(self).map@.len()
-                && final(self).map@ == (match e.ent.inserted() { Some(v) => old(self).map@.push((key, v)), None => old(self).map@ }), // @ob C11.V.compact.entry_index
+            // a named infoset seen before: the entry carries the index it was given then
+            Entry::Occupied(e) => key is Some && has_key(old(self).map@, true_key(key, old(self).counter))
+                && e.ent.stored().0 == key_at(old(self).map@, true_key(key, old(self).counter)) && final(self).map@ == old(self).map@, // @ob C11.V.compact_opt.entry_index
+            // a new infoset: the entry carries the next index, the number of infosets so far
+            Entry::Vacant(e) => !has_key(old(self).map@, true_key(key, old(self).counter)) && e.ind == old(self).map@.len()
+                && final(self).map@ == (match e.ent.inserted() { Some(v) => old(self).map@.push((true_key(key, old(self).counter), v)), None => old(self).map@ }), // @ob C11.V.compact_opt.entry_index
         },
+        // an anonymous chance node (no infoset label) is ALWAYS its own new infoset
+        key is None ==> r is Vacant, // @ob C11.V.compact_opt.anonymous_is_new
+        // the invariant behind that survives whatever the entry is then used for
+        errs_below(final(self).map@, final(self).counter), // @ob C11.V.compact_opt.anonymous_is_new
 {
+let ghost m0 = self.map@;
+let ghost c0 = self.counter;
 proof {
-    // distinct keys: the position of a present key is determined (IndexMap), and the dense invariant
-    // says the stored index is that position
-    assert(has_key(self.map@, key) ==> self.map@[key_at(self.map@, key)].1.0 == key_at(self.map@, key));
+    assert(has_key(m0, true_key(key, c0)) ==> m0[key_at(m0, true_key(key, c0))].1.0 == key_at(m0, true_key(key, c0)));
+    // an anonymous key is not in the map: all anonymous keys there are below the counter
+    assert(key is None ==> !has_key(m0, true_key(key, c0))) by {
+        if key is None && has_key(m0, true_key(key, c0)) {
+            let i = choose|i: int| 0 <= i < m0.len() && #[trigger] m0[i].0 == true_key(key, c0);
+            assert(m0[i].0 matches Err(c) && c < c0);
+        }
+    }
 }
 
         let ind = self.map.len();
-        match self.map.entry(key) {
+        let true_key = __ok_or_else_fresh(key, self);
+        match self.map.entry(true_key) {
             map::Entry::Vacant(ent) => Entry::Vacant(VacantEntry { ind, ent }),
             map::Entry::Occupied(ent) => Entry::Occupied(OccupiedEntry { ent }),
         }
     }
 }
 
-// ---- extracted from src/compact.rs: impl VacantEntry ----
-impl<K, V> VacantEntry<'_, K, V> {
-pub fn insert(self, val: V) -> (r: usize) 
+// ---- extracted from src/compact.rs: impl Iterator for OptIntoIter / fn next ----
+pub fn optintoiter_next__entry<K, V>(k: Result<K, usize>, v: V) -> (out: (Option<K>, V))
     ensures
-        // the value is stored together with the index the entry carries, and that index is returned
-        r == self.ind && self.ent.inserted() == Some((self.ind, val)), // @ob C11.V.compact.insert_returns_index
+        // the stored value is handed over unchanged; a named infoset keeps its label, an anonymous one has none
+        out.1 == v && out.0 == (match k { Ok(k) => Some(k), Err(_) => None::<K> }), // @ob C11.V.compact_opt.into_iter_entry
 {
-        self.ent.insert((self.ind, val));
-        self.ind
-    }
-}
-
-// ---- extracted from src/compact.rs: impl OccupiedEntry ----
-impl<'a, K, V> OccupiedEntry<'a, K, V> {
-pub fn get(self) -> (r: (usize, &'a V)) 
-    ensures
-        r.0 == self.ent.stored().0 && *r.1 == self.ent.stored().1, // @ob C11.V.compact.get_returns_index
-{
-        let (ind, val) = self.ent.into_mut();
-        (*ind, val)
-    }
-}
-
-// ---- extracted from src/compact.rs: impl Iterator for IntoIter / fn next ----
-pub fn intoiter_next__entry<K, V>(k: K, v: V) -> (out: (K, V))
-    ensures
-        // key and stored value are handed over unchanged (the index is dropped: it is the position)
-        out.0 == k && out.1 == v, // @ob C11.V.compact.into_iter_entry
-{
-(k, v)
+(k.ok(), v)
 }
 
 
